@@ -287,6 +287,43 @@ theorem readFrames_serFrames (simp : Str → Str) (st : List Loc) (rest : Str)
 theorem Severity.ofStr_toStr (s : Severity) : Severity.ofStr s.toStr = s := by
   cases s <;> decide
 
+/-- the transport round trip (restated as `deserialize_serialize` in Props/C15.lean) -/
+theorem deserialize_serialize_aux (simp : Str → Str) (m : Msg) (h : m.transportable = true) :
+    deserialize simp (serialize m) = .ok (m.sanitize simp) := by
+  simp only [Msg.transportable, Bool.and_eq_true, decide_eq_true_eq, List.all_eq_true] at h
+  obtain ⟨⟨⟨⟨hf, hcwe⟩, hhash⟩, hlen⟩, hst⟩ := h
+  have hfields : readFields 10 (serFields m.fields ++ (render m.stack.length ++ ' ' :: serFrames m.stack)) =
+      .ok (m.fields, render m.stack.length ++ ' ' :: serFrames m.stack) := by
+    have := readFields_serFields m.fields (render m.stack.length ++ ' ' :: serFrames m.stack) hf
+    simpa [Msg.fields] using this
+  unfold deserialize serialize
+  rw [List.append_assoc, hfields]
+  simp only [Msg.fields]
+  have hc : (render m.cwe).isEmpty = false := by
+    cases hh : render m.cwe with
+    | nil => exact absurd hh (render_ne_nil _)
+    | cons _ _ => rfl
+  have hh : (render m.hash).isEmpty = false := by
+    cases hh : render m.hash with
+    | nil => exact absurd hh (render_ne_nil _)
+    | cons _ _ => rfl
+  simp only [hc, hh, Bool.false_eq_true, ↓reduceIte, parseUnsigned_render 65535 m.cwe (by omega),
+    parseUnsigned_render (two64 - 1) m.hash (by omega)]
+  have hr : ∀ c r, (' ' :: serFrames m.stack) = c :: r → isDigit c = false := by
+    intro c r hc
+    simp at hc
+    rw [← hc.1]
+    decide
+  rw [readUInt_render _ _ hlen hr]
+  simp only
+  have := readFrames_serFrames simp m.stack [] hst
+  rw [List.append_nil] at this
+  rw [this]
+  simp only [Severity.ofStr_toStr, Msg.sanitize]
+  cases m
+  simp
+
+
 /-! ### pipe framing -/
 
 theorem le32Val_le32 (n : Nat) (h : n < two32) :
